@@ -62,8 +62,9 @@ func (f *WithInputFromOctets) Call(s *slip.Scope, args slip.List, depth int) (re
 		slip.TypePanic(s, depth, "args[0]", args[0], "symbol")
 	}
 	d2 := depth + 1
-	args[1] = slip.EvalArg(s, args, 1, d2)
-	data := octetsArg(args[1])
+	// The value is not stored in the form, the form is evaluated again on
+	// the next call.
+	data := octetsArg(slip.EvalArg(s, args, 1, d2))
 
 	s2 := s.NewScope()
 	s2.Let(sym, slip.NewInputStream(bytes.NewReader(data)))
